@@ -341,6 +341,8 @@ type hostileResult struct {
 	alloc     uint64
 	stuck     string
 	calls     []*sim.Call
+	probed    bool
+	probeLost string
 }
 
 // runHostile feeds the bytes to a fresh client. In handshake mode the bytes
@@ -469,13 +471,42 @@ func runHostile(c *run.Ctx, hs hostileSetup, input []byte, handshake bool, clean
 			}
 		}
 	}
+	readsBeforeProbe := d.ReadsSnapshot()
+	// after a reset the next connection works: a message sent on it comes out
+	if cn := w.CurConn(); cn != nil && cn.Idx >= 2 && cn.Alive() && res.stuck == "" {
+		w.Mu.Lock()
+		accepted := w.Broker.Accepted(cn)
+		w.Mu.Unlock()
+		if accepted {
+			w.Broker.Publish("probe/after/reset", []byte("still receiving"), 0, false)
+			got := func() bool {
+				for _, r := range d.ReadsSnapshot() {
+					if r.Topic == "probe/after/reset" && string(r.Msg) == "still receiving" {
+						return true
+					}
+				}
+				return false
+			}
+			if !w.WaitUntil(sim.StepTimeout, got) {
+				wedged, report := w.Diagnose(1500 * time.Millisecond)
+				if !got() {
+					if wedged {
+						res.probeLost = report
+					} else {
+						c.Inconclusive("hostile input: probe after the reset slow")
+					}
+				}
+			}
+			res.probed = true
+		}
+	}
 	// requests pending on a connection that is still fine stay pending; let them go
 	w.WaitIdle(50 * time.Millisecond)
 	d.WaitWatchers(2 * time.Second)
 	var ms1 runtime.MemStats
 	runtime.ReadMemStats(&ms1)
 	res.alloc = ms1.TotalAlloc - ms0.TotalAlloc
-	res.reads = d.ReadsSnapshot()
+	res.reads = readsBeforeProbe
 	w.Mu.Lock()
 	res.closed1 = len(w.Conns) > 0 && w.Conns[0].Closed()
 	res.dials = w.Dials
@@ -592,6 +623,14 @@ func judgeHostile(c *run.Ctx, label string, hs hostileSetup, input []byte, hands
 	for _, o := range res.online {
 		c.Violate("deadline-discipline", label+": "+o, detail())
 	}
+	if res.probeLost != "" {
+		dt := detail()
+		dt["report"] = res.probeLost
+		c.Violate("reception-does-not-resume-after-reset", label+": a message sent on the connection that followed the reset never came out of ReadSlices", dt)
+	}
+	if res.probed {
+		c.Count("probes_after_reset", 1)
+	}
 	if limit := uint64(maxAnnounced) + 8<<20; res.alloc > limit {
 		c.Violate("allocation-beyond-announced-size", fmt.Sprintf("%s: %d bytes allocated while the largest announced packet has %d", label, res.alloc, maxAnnounced), detail())
 	}
@@ -677,7 +716,7 @@ func init() {
 			return 320
 		},
 		ChunkSize:   10,
-		Rule:        "inputs come from four generators, each used as handshake reply and as post-handshake stream against clients with 0-3 at-least-once and 0-3 exactly-once transfers outstanding plus optional pending Subscribe, Unsubscribe and Ping: (directed) 47 hand-listed offences, one per violation the statement names, placed after a valid prefix of 0-6 packets, plus 9 stage-dependent ones (an acknowledgement that would be right one stage earlier or later, after a prefix that brings the transfers to that stage); (mutation) every single-field mutation of a generated valid stream: each byte of each fixed header set to 0, +-1, 0xff, high bit flipped, identifiers set to zero, foreign space and neighbour, truncation at every byte (broker then stays silent); (soup) PRNG bytes and valid packets in PRNG order; (handshake) all 256 return codes and flag bytes, truncated and foreign first packets. A reference classifier written from the specification (over the model of what is outstanding) gives the first offending packet; gray-zone inputs (reserved flag bits on non-PUBLISH packets, topic contents, DUP on QoS 0) get only the unconditional monitors. Oracle: no panic (child-process monitor); packets before the offence take effect (returned messages, completed transfers equal the reference); at the offence ReadSlices errs, the connection is closed by the client and the next ReadSlices dials again; completions and record deletions need their in-order acknowledgement bytes in the input; messages beyond the read buffer that stop short are read or skipped by the application; a Read that blocks inside a packet must have a deadline armed (the connection expires it instead of waiting); bytes allocated stay below the largest announced packet + 8 MiB. Non-trivial: input with an offence reached by the parser; distinct by (generator, offence kind, outstanding state, handshake or stream).",
+		Rule:        "inputs come from four generators, each used as handshake reply and as post-handshake stream against clients with 0-3 at-least-once and 0-3 exactly-once transfers outstanding plus optional pending Subscribe, Unsubscribe and Ping: (directed) 47 hand-listed offences, one per violation the statement names, placed after a valid prefix of 0-6 packets, plus 9 stage-dependent ones (an acknowledgement that would be right one stage earlier or later, after a prefix that brings the transfers to that stage); (mutation) every single-field mutation of a generated valid stream: each byte of each fixed header set to 0, +-1, 0xff, high bit flipped, identifiers set to zero, foreign space and neighbour, truncation at every byte (broker then stays silent); (soup) PRNG bytes and valid packets in PRNG order; (handshake) all 256 return codes and flag bytes, truncated and foreign first packets. A reference classifier written from the specification (over the model of what is outstanding) gives the first offending packet; gray-zone inputs (reserved flag bits on non-PUBLISH packets, topic contents, DUP on QoS 0) get only the unconditional monitors. Oracle: no panic (child-process monitor); packets before the offence take effect (returned messages, completed transfers equal the reference); at the offence ReadSlices errs, the connection is closed by the client, the next ReadSlices dials again and a message sent on that next connection comes out; completions and record deletions need their in-order acknowledgement bytes in the input; messages beyond the read buffer that stop short are read or skipped by the application; a Read that blocks inside a packet must have a deadline armed (the connection expires it instead of waiting); bytes allocated stay below the largest announced packet + 8 MiB. Non-trivial: input with an offence reached by the parser; distinct by (generator, offence kind, outstanding state, handshake or stream).",
 		Assumptions: []string{"the thorough tier adds a 120 s session of Go's coverage-guided fuzzing on the same oracle (props/fuzz_test.go); an asan pass is not part of this check", "BigMessage.ReadAll is never called on messages above 1 MiB"},
 		Extra: func(tier string, seed int64) *run.CaseResult {
 			if tier != "thorough" {
@@ -821,6 +860,31 @@ func init() {
 						}
 					}
 					hs.skipBig = false
+					// packets of other types that announce more than the read buffer holds, in
+					// full: never a BigMessage, always an error and a reset
+					for _, typ := range []byte{wire.PUBACK, wire.PUBREC, wire.PUBREL, wire.PUBCOMP, wire.SUBACK, wire.UNSUBACK, wire.PINGRESP} {
+						body := bytes.Repeat([]byte{0x60, 0x00}, 40+r.Intn(60))
+						pk := append([]byte{typ << 4, byte(len(body))}, body...)
+						if typ == wire.PUBREL {
+							pk[0] |= 2
+						}
+						in := append(validStream(r, hs, r.Intn(3)), pk...)
+						in = append(in, validStream(r, hostileSetup{}, 2)...)
+						try(fmt.Sprintf("%s of %d bytes, beyond the read buffer", wire.TypeName(typ), len(pk)), "oversize|"+wire.TypeName(typ), in, false, false)
+					}
+					// a PUBLISH beyond the read buffer that is itself a violation
+					for _, kind := range []string{"qos3", "id-zero"} {
+						big := wire.Publish("big/bad", bytes.Repeat([]byte{9}, 150+r.Intn(100)), byte(1+r.Intn(2)), 9, false, false)
+						if kind == "qos3" {
+							big[0] |= 6
+						} else {
+							hl, _, _ := wire.Header(big)
+							tl := int(big[hl])<<8 | int(big[hl+1])
+							big[hl+2+tl], big[hl+2+tl+1] = 0, 0
+						}
+						in := append(validStream(r, hs, r.Intn(3)), big...)
+						try("PUBLISH beyond the read buffer with "+kind, "big-violation|"+kind, in, false, false)
+					}
 					mqtt.VerifSetReadBufSize(128 * 1024)
 				}
 				k := c.Case / 4
